@@ -11,7 +11,24 @@ from hypothesis import strategies as st
 
 from vlib.harness import Clause, HarnessError, Violation, drive
 
+import copy
+
 import outrank.feature_transformations.feature_transformer_vault as vault
+
+# Snapshot of the preset dictionaries taken before any transformer object exists; every oracle call restores the live
+# dictionaries from it first (global state of the code under test is reset at the top of every iteration).
+VAULT = copy.deepcopy({k: dict(v) for k, v in vault._tr_global_namespace.items()})
+
+
+def reset_vault():
+    for k, snap in VAULT.items():
+        live = vault._tr_global_namespace.get(k)
+        if live is None or live is snap:
+            continue
+        if dict(live) != snap or list(live) != list(snap):
+            live.clear()
+            live.update(snap)
+
 from outrank.feature_transformations.ranking_transformers import FeatureTransformerGeneric
 
 ID = 'C12'
@@ -300,7 +317,11 @@ def frame_case(draw, multi_preset, max_rows, max_cols):
     ncols = draw(st.integers(1, max_cols))
     names = draw(st.lists(st.sampled_from(NAME_POOL), min_size=ncols, max_size=ncols, unique=True))
     cols = [draw(column(nm, n)) for nm in names]
-    return {'presets': presets, 'n': n, 'cols': cols, 'label_first': draw(st.booleans())}
+    case = {'presets': presets, 'n': n, 'cols': cols, 'label_first': draw(st.booleans())}
+    if multi_preset:
+        # earlier constructions in the same process (a history): they must not change what this preset list selects
+        case['history'] = draw(st.lists(st.lists(st.sampled_from(PRESETS), min_size=1, max_size=3), max_size=2))
+    return case
 
 
 # ---- oracle ----------------------------------------------------------------------------------------
@@ -341,11 +362,12 @@ def verdict(per_input, n):
         fk = (key, xk) if fz else (key, None)
         fine[fk] = fine.get(fk, 0) + c
     # coarse: chain-merge numerically indistinguishable values (incl. -0.0 / 0.0)
-    finite = sorted(((float(k), c) for k, c in exact.items() if k != 'nan'), key=lambda t: t[0])
+    finite = sorted(((float(k), c) for k, c in exact.items() if k != 'nan'), key=lambda t: (t[0], math.copysign(1.0, t[0])))
     coarse = []
     prev = None
     for v, c in finite:
-        if prev is not None and _close(prev, v):
+        same_sign_zero = not (prev == 0 and v == 0 and math.copysign(1.0, prev) != math.copysign(1.0, v)) if prev is not None else True
+        if prev is not None and _close(prev, v) and same_sign_zero:
             coarse[-1] += c
         else:
             coarse.append(c)
@@ -382,10 +404,14 @@ def same_value(got, ref):
 
 
 def oracle(case, rec, preset_clause=False):
+    reset_vault()
     presets, n, cols = case['presets'], case['n'], case['cols']
+    for earlier in case.get('history', []):
+        # a history of earlier constructions in the same process must not influence this one
+        FeatureTransformerGeneric({c['name'] for c in cols}, preset=','.join(earlier))
     expected_names = []
     for p in presets:
-        for k in vault._tr_global_namespace[p]:
+        for k in VAULT[p]:
             if k not in expected_names:
                 expected_names.append(k)
     refs = {}
@@ -411,10 +437,12 @@ def oracle(case, rec, preset_clause=False):
         out = tr.construct_new_features(df.copy())
 
     union = set(expected_names)
-    last = set(vault._tr_global_namespace[presets[-1]])
+    last = set(VAULT[presets[-1]])
     if preset_clause:
         rec.nt(len(presets) >= 2 and union != last, key=[presets, [c['vals'] for c in cols], [c['counts'] for c in cols]])
         rec.cls('presets=' + ','.join(presets))
+        if case.get('history'):
+            rec.cls('with-construction-history')
     rec.cls('n<=12' if n <= 12 else 'n<=40' if n <= 40 else 'n>40')
 
     # original columns untouched, in place
@@ -524,4 +552,4 @@ def run(ctx):
     cl = ctx.stats.classes
     for need in ('dropped:majority-exact-80', 'dropped:nan-exact-75', 'dropped:single', 'kept'):
         ctx.extra.setdefault('boundary_classes', {})[need] = cl.get(need, 0)
-    ctx.extra['transformers_per_case'] = {p: len(vault._tr_global_namespace[p]) for p in PRESETS}
+    ctx.extra['transformers_per_case'] = {p: len(VAULT[p]) for p in PRESETS}
